@@ -34,9 +34,12 @@ func (b *bufferPool) Get() *bytes.Buffer {
 		buffer.Reset()
 		return buffer
 	}
-	buffer := bytes.NewBuffer(make([]byte, 0, initialBufferSize))
-	verifPoolGet(buffer, false)
-	return buffer
+	if verifEnabled {
+		buffer := bytes.NewBuffer(make([]byte, 0, initialBufferSize))
+		verifPoolGet(buffer, false)
+		return buffer
+	}
+	return bytes.NewBuffer(make([]byte, 0, initialBufferSize))
 }
 
 func (b *bufferPool) Put(buffer *bytes.Buffer) {
@@ -52,9 +55,12 @@ func (b *bufferPool) Wrap(data []byte, orig *bytes.Buffer) *bytes.Buffer {
 		// Original buffer was too small, so we had to grow its slice to
 		// compute data.  Replace the buffer with the larger,
 		// newly-allocated slice.
-		buffer := bytes.NewBuffer(data)
-		verifPoolWrap(orig, buffer)
-		return buffer
+		if verifEnabled {
+			buffer := bytes.NewBuffer(data)
+			verifPoolWrap(orig, buffer)
+			return buffer
+		}
+		return bytes.NewBuffer(data)
 	}
 	// The buffer from the pool was large enough so no growing was necessary.
 	// That means this should be a no-op since the buffer, under the hood, will
